@@ -157,6 +157,7 @@ func runC06(src sim.Source, o Opts) *Result {
 	s := sim.NewSched(src)
 	s.KeepTrace = o.Trace
 	drawPolicy(src, s)
+	s.MaxSteps = 20000 // bounded liveness: ordinary runs need a few hundred steps
 	converse := src.Intn("converse", 10) >= 7
 	nr := 1 + src.Intn("readers", 4)
 	readerProgs := make([][]c06Read, nr)
@@ -304,12 +305,14 @@ func runC06(src sim.Source, o Opts) *Result {
 		for i := 0; i < nw; i++ {
 			i := i
 			s.Go(fmt.Sprintf("writer%d", i), func(*sim.Task) {
-				log := &taskLog{}
-				cw.runProgram(s, i, wprogs[i], log)
-				if parked.Get() > 0 && readersDone.Get() < nr {
-					ranWhileParked.Inc()
-				}
-				writersDone.Inc()
+				// deferred: the program may end the task through runtime.Goexit inside a transaction
+				defer func() {
+					if parked.Get() > 0 && readersDone.Get() < nr {
+						ranWhileParked.Inc()
+					}
+					writersDone.Inc()
+				}()
+				cw.runProgram(s, i, wprogs[i], &taskLog{})
 			})
 		}
 		res.Case["writers"] = describeTasks(wprogs)
@@ -340,6 +343,21 @@ func runC06(src sim.Source, o Opts) *Result {
 	case sim.Stalled:
 		res.Stack = out.Stack
 		res.fail("C06/read-blocked", "task %s is blocked in %s (outside the simulator's gates) at stage %s", out.Task.Name, out.State, stage)
+		return res
+	case sim.StepLimit:
+		// some task keeps yielding without ever finishing while the others are parked: a read path (or, in the converse
+		// scenario, a writer) spin-waits for a state only the parked side can change
+		var spinning []string
+		for _, t := range s.Tasks {
+			if !t.Finished && t.Steps > 1000 {
+				spinning = append(spinning, t.Name)
+			}
+		}
+		if converse {
+			res.fail("C06/writer-waits-for-reader", "after %d scheduler steps %v still spin without finishing while readers are parked", s.Steps, spinning)
+		} else {
+			res.fail("C06/read-spins-for-writer", "with the writer parked at %s, %v did not finish within %d scheduler steps (spin-wait on state only the writer can change)", stage, spinning, s.Steps)
+		}
 		return res
 	default:
 		res.Trouble = fmt.Sprintf("scheduler: %s %s", out.Kind, out.Detail)
